@@ -102,6 +102,17 @@ class Check:
         if getattr(res, "twin_error", None):
             self.checker_errors.append(f"{k.id}: bounded twin crashed: {res.twin_error.splitlines()[0]}")
 
+    def add_lemmas(self, tier):
+        """ghost lemmas used by the kernels of this check: the Lean file must be accepted by lean (stamp-cached in the quick tier)"""
+        if not any("ghost lemma" in a for r in self.kernels for a in (r.info or {}).get("assumed", [])):
+            return
+        from . import lemmas
+        r = lemmas.ensure_checked(force=(tier == "thorough"))
+        self.rules.append({"name": f"{self.prop}.L.lemmas_accepted_by_lean", "ok": bool(r["ok"]), "sites": 1, "failing": [], "detail": r["detail"]})
+        self.trusted.append(f"Lean 4.33 kernel + Mathlib for the ghost lemmas of lemmas/Lemmas.lean ({'stamp-cached' if r['cached'] else 'checked in %.0f s' % r['seconds']})")
+        if not r["ok"]:
+            self.checker_errors.append(f"lemmas/Lemmas.lean not accepted by lean: {r['detail'][-300:]}")
+
     # -- S level ----------------------------------------------------------------------------------------------------
     def add_rule(self, name, ok, sites, failing=(), detail=""):
         self.rules.append({"name": name, "ok": bool(ok), "sites": sites, "failing": list(failing), "detail": detail})
